@@ -46,7 +46,8 @@ MANIFEST = {
             'operand values that result cells equal the elementwise result, '
             'are masked exactly when an operand is masked or the result is '
             'non-finite / a predicate holds, and that coordinate variables '
-            'pass through unchanged.',
+            'pass through unchanged.'
+            ' Also: a non-finite operand cell under + - * is masked in the result.',
     'note': 'Trusted: z3; numpy object-array arithmetic (calls the symbolic '
             'scalar operators); shim masked_invalid/masked_values. Floats '
             'are reals, so rounding/overflow are outside.',
